@@ -1,5 +1,5 @@
 /- C02 — line protocol of the driver (`drvC02`). -/
-import NipyVerif.Model.C02B
+import NipyVerif.Model.C02C
 namespace NipyVerif.C02
 
 def fmtImg (g : Img) : String :=
@@ -86,6 +86,7 @@ def pOrnt : P (List (Option Nat)) := pList pOptNat
 def pOrntSrc : P OrntSrc := do
   let t ← pTok
   if t = "M" then pure .mono
+  else if t = "Q" then pure .orth
   else match t.toNat? with
     | some n => do let l ← pMany pOptNat n; pure (.given l)
     | none => failure
@@ -93,6 +94,7 @@ def pOrntSrc : P OrntSrc := do
 def pXyzSrc : P XyzSrc := do
   let t ← pTok
   if t = "M" then pure .mono
+  else if t = "Q" then pure .orth
   else if t = "O" then do let o0 ← pOrnt; let o1 ← pOrnt; let o2 ← pOrnt; pure (.given o0 o1 o2)
   else failure
 
@@ -175,6 +177,90 @@ def fmtBox (b : Except Err (List (Rat × Rat))) : String :=
 def fmtOut : Except Err Res → String := fmtRes
 
 def pInstr : P Instr := do let s ← pNat; let op ← pOp; pure (s, op)
+
+/-! ### third part: every index kind, ArrayCoordMap / Grid, xyz_affine, programs (`Model/C02C`) -/
+
+def pIdx : P Idx := do
+  let t ← pTok
+  if t = "I" then do let i ← pInt; pure (.s (.idx i))
+  else if t = "S" then do let a ← pOptInt; let b ← pOptInt; let c ← pOptInt; pure (.s (.slc a b c))
+  else if t = "E" then pure (.s .ell)
+  else if t = "N" then pure .newaxis
+  else if t = "F" then pure .fancy
+  else if t = "R" then pure .float
+  else failure
+
+def pOptRat : P (Option Rat) := do
+  let t ← pTok
+  if t = "_" then pure none else match parseRat t with | some q => pure (some q) | none => failure
+
+def pTriple : P (Option Int × Option Int × Option Int) := do
+  let a ← pOptInt; let b ← pOptInt; let c ← pOptInt; pure (a, b, c)
+
+def pPOp : P POp := do
+  let t ← pTok
+  if t = "B" then do let op ← pOp; pure (.base op)
+  else if t = "X" then do let l ← pList pIdx; pure (.index l)
+  else if t = "RF" then do
+    let a ← pAxId; let s ← pAxId; let f ← pBool; let o ← pOrntSrc; pure (.rollimgF a s f o)
+  else if t = "IM" then do
+    let a ← pOptAxId; let d ← pBool; let o ← pOrntSrc; let oS ← pOrntSrc
+    let sls ← pList pTriple; let i ← pInt; pure (.item a d o oS sls i)
+  else if t = "OB" then pure .obs
+  else if t = "DA" then pure .data
+  else if t = "IA" then do let a ← pAxId; let k ← pNat; let o ← pOrntSrc; pure (.iterArr a k o)
+  else if t = "LD" then do
+    let a ← pOptAxId; let d ← pBool; let o ← pOrntSrc; let oS ← pOrntSrc; let lax ← pOptInt
+    pure (.listData a d o oS lax)
+  else failure
+
+def fmtPOut : POut Int → String
+  | .img g => fmtImg g
+  | .val v => "V " ++ toString v
+  | .arr a => fmtArr a
+  | .err e => "E " ++ e.toString
+
+def extraP (g : Img) : POp → String
+  | .base op => extra g op
+  | _ => ""
+
+def pPInstr : P PInstr := do let s ← pNat; let op ← pPOp; pure (s, op)
+
+/-- a coordinate map with a shape: `shape inNames outNames matrix(nout × (nin+1))` -/
+def pAcm : P ACM := do
+  let shape ← pList pNat
+  let inN ← pList pTok
+  let outN ← pList pTok
+  let m ← pMat
+  let rows := m.toArray.map (fun r => r.toArray)
+  if m.length ≠ outN.length ∨ m.any (fun r => r.length ≠ inN.length + 1) then failure
+  pure {
+    shape := shape, inNames := inN, outNames := outN
+    cols := (List.range inN.length).map (fun k => fun r => (rows.getD r #[]).getD k 0)
+    off := fun r => (rows.getD r #[]).getD inN.length 0
+    data := fun _ => () }
+
+def fmtAcm (c : ACM) : String :=
+  let rows := (List.range c.outNames.length).map (fun r => (c.cols.map (fun k => k r)) ++ [c.off r])
+  "K " ++ fmtNats c.shape ++ " | " ++ " ".intercalate c.inNames ++ " | " ++
+    " ".intercalate c.outNames ++ " | " ++ fmtMat rows ++ " | " ++
+    (match acmValuesE c with
+     | .ok (v, t) => fmtRats v.flatten ++ " | " ++ fmtRats t.flatten
+     | .error e => "E " ++ e.toString)
+
+def fmtAcmRes : Except Err ACM → String
+  | .ok c => fmtAcm c
+  | .error e => "E " ++ e.toString
+
+def pGSpec : P GSpec := do
+  let t ← pTok
+  if t = "T" then do let a ← pOptRat; let b ← pOptRat; let s ← pOptRat; pure (.step a b s)
+  else if t = "J" then do let a ← pRat; let b ← pRat; let n ← pNat; pure (.num a b n)
+  else failure
+
+def colsOfRows (m : List (List Rat)) (nin : Nat) : List Vec :=
+  let rows := m.toArray.map (fun r => r.toArray)
+  (List.range nin).map (fun k => fun r => (rows.getD r #[]).getD k 0)
 
 def run : Toks → String
   | "seq" :: rest =>
@@ -286,6 +372,45 @@ def run : Toks → String
             let rows := m.toArray.map (fun r => r.toArray)
             let cols : List Vec := (List.range nin).map (fun k => fun r => (rows.getD r #[]).getD k 0)
             "O " ++ fmtOrnt (monoOrnt cols m.length f)
+      | none => "bad-op"
+  | "progx" :: rest =>
+      -- a program over the whole operation language (`execP`)
+      match runP (do let g ← pImg; let is ← pList pPInstr; pure (g, is)) rest with
+      | some (g, is) =>
+          let r := execP [g] is
+          " ;; ".intercalate ((is.zip r.2).map (fun p =>
+            fmtPOut p.2 ++ (match r.1[p.1.1]? with | some gs => extraP gs p.1.2 | none => "")))
+      | none => "bad-op"
+  | "acm" :: rest =>
+      -- `ArrayCoordMap(cmap, shape)[slicers]` with its `values` / `transposed_values`
+      match runP (do let c ← pAcm; let sl ← pList pSlicer; pure (c, sl)) rest with
+      | some (c, sl) =>
+          if c.shape.length ≠ c.inNames.length then "bad-op" else fmtAcmRes (acmGetitem c sl)
+      | none => "bad-op"
+  | "grid" :: rest =>
+      -- `Grid(cmap)[specs]`
+      match runP (do let c ← pAcm; let sp ← pList pGSpec; pure (c, sp)) rest with
+      | some (c, sp) => fmtAcmRes (gridGetitem c sp)
+      | none => "bad-op"
+  | "fromshape" :: rest =>
+      match runP (do let c ← pAcm; let sh ← pList pNat; pure (c, sh)) rest with
+      | some (c, sh) => fmtAcmRes (fromShape c sh)
+      | none => "bad-op"
+  | "xyzaff" :: rest =>
+      -- `xyz_affine(img, name2xyz)`
+      match runP (do let g ← pImg; let m ← pList pNamed; let o ← pOrntSrc; pure (g, m, o)) rest with
+      | some (g, m, o) =>
+          match xyzAffine g m (o.get g false) with
+          | .ok M => "M " ++ fmtMat M
+          | .error e => "E " ++ e.toString
+      | none => "bad-op"
+  | "ornto" :: rest =>
+      -- `ornto A(nout × nin) fix`: io_orientation of an affine with mutually orthogonal columns
+      match runP (do let m ← pMat; let f ← pBool; pure (m, f)) rest with
+      | some (m, f) =>
+          let nin := (m.headD []).length
+          if m.any (fun r => r.length ≠ nin) then "bad-op"
+          else "O " ++ fmtOrnt (orthOrnt (colsOfRows m nin) m.length f)
       | none => "bad-op"
   | _ => "bad-op"
 
